@@ -112,6 +112,7 @@ package cache
 //@   ensures #lru keptold(lru)
 //@   ensures #others forall k interface{} :: { has(lru.table, k) } has(lru.table, k) && k != key ==> old(has(lru.table, k)) && lru.table[k] == old(lru.table[k])
 //@   ensures #keptifnoeviction lru.evictions == old(lru.evictions) ==> has(lru.table, key) && lru.list.lcnt == old(lru.list.lcnt) + 1
+//@   ensures #mrulast !has(lru.table, key) ==> lru.list.lcnt == 0
 //@   modifies lru.size, lru.evictions, mapsof(lru.table), list.List.lmem, list.List.lcnt, list.Element.lrk, list.Element.Value, entry.key, entry.value, entry.size
 //
 //@ func LRUCache.updateInPlace
@@ -121,6 +122,8 @@ package cache
 //@   ensures #updated lru.list.lmem[element] ==> ent(element).value == value && ent(element).key == old(ent(element).key) && (forall x *list.Element :: { lru.list.lmem[x] } lru.list.lmem[x] && x != element ==> element.lrk < x.lrk)
 //@   ensures #oldorder forall e *list.Element :: { e.lrk } old(lru.list.lmem[e]) && e != element ==> e.lrk == old(e.lrk) && ent(e).value == old(ent(e).value) && ent(e).size == old(ent(e).size)
 //@   ensures #others forall k interface{} :: { has(lru.table, k) } has(lru.table, k) ==> old(has(lru.table, k)) && lru.table[k] == old(lru.table[k])
+//@   ensures #mrulast !lru.list.lmem[element] ==> lru.list.lcnt == 0
+//@   ensures #lrufirst forall r *list.Element, e *list.Element :: { old(lru.list.lmem[r]), lru.list.lmem[e] } old(lru.list.lmem[r]) && !lru.list.lmem[r] && lru.list.lmem[e] && r != element && e != element ==> old(e.lrk) < old(r.lrk)
 //@   modifies lru.size, lru.evictions, entries(lru.table), lru.list.lmem, lru.list.lcnt, list.Element.lrk, entry.value, entry.size
 //
 // ---- public operations ----
@@ -130,6 +133,8 @@ package cache
 //@   ensures #others forall k interface{} :: { has(lru.table, k) } has(lru.table, k) && k != key ==> cs(has(lru.table, k)) && lru.table[k] == cs(lru.table[k]) && ent(lru.table[k]).value == cs(ent(lru.table[k]).value)
 //@   ensures #order forall e *list.Element :: { e.lrk } cs(lru.list.lmem[e]) && lru.list.lmem[e] && e != lru.table[key] ==> e.lrk == cs(e.lrk)
 //@   ensures #capacity lru.capacity == cs(lru.capacity)
+//@   ensures #mrulast !has(lru.table, key) ==> lru.list.lcnt == 0
+//@   ensures #lrufirst forall r *list.Element, e *list.Element :: { cs(lru.list.lmem[r]), lru.list.lmem[e] } cs(lru.list.lmem[r]) && !lru.list.lmem[r] && lru.list.lmem[e] && cs(lru.list.lmem[e]) && r != cs(lru.table[key]) && e != cs(lru.table[key]) ==> cs(e.lrk) < cs(r.lrk)
 //@   modifies LRUCache.list, LRUCache.table, LRUCache.size, LRUCache.capacity, LRUCache.evictions, mapsof(lru.table), list.List.lmem, list.List.lcnt, list.Element.lrk, list.Element.Value, entry.key, entry.value, entry.size
 //
 //@ func LRUCache.SetIfAbsent
